@@ -2,7 +2,7 @@
 
 COMMON_TRUST = [
     "rustc front end, Verus 0.2026.09.13 + Z3 (VX); Kani 0.68 + CBMC 6.11 + SAT back end (KC)",
-    "the extractor /verif/vx/extract.py (item locator, normalisation rules N1-N9/T1-T4/O1, contract splicer, line map)",
+    "the extractor /verif/vx/extract.py (item locator, normalisation rules N1-N16 / T1-T6 / O1 with argument capture / ARM, BLOCK and LAZY slicing - listed in DESIGN.md 0b.2 and, per firing, in normalisations_fired, contract splicer, line map)",
     "vstd's model of Vec/slice/Seq/Option/array",
     "machine integers are checked: overflow of i32/u32/usize arithmetic is a failed obligation (debug-profile semantics)",
 ]
